@@ -66,6 +66,7 @@ void tokens_reset(AsmContext *asm_context)
   asm_context->tokens.unget[0] = 0;
   asm_context->tokens.unget_ptr = 0;
   asm_context->tokens.unget_stack_ptr = 0;
+  asm_context->tokens.expand_depth = 0;
   asm_context->tokens.unget_stack[0] = 0;
 }
 
@@ -736,7 +737,18 @@ printf("debug> '%s' is a macro.  param_count=%d\n", token, param_count);
 //  asm_context->tokens.unget_ptr);
 #endif
 
+      // An expansion that yields another expansion (NAME equ NAME, a row of
+      // empty defines) is read by one more call each time.
+      if (asm_context->tokens.expand_depth >= 1024)
+      {
+        print_error(asm_context, "Macros expand to macros too many times");
+        asm_context->error_count++;
+        return TOKEN_EOF;
+      }
+
+      asm_context->tokens.expand_depth++;
       token_type = tokens_get(asm_context, token, len);
+      asm_context->tokens.expand_depth--;
 #ifdef DEBUG
 //printf("debug> expanding.. '%s'\n", token);
 #endif
